@@ -182,6 +182,19 @@ impl ElementMap for TransformerContext {
     }
 
     fn get_element_bbox(&self, el: &SvgElement) -> Result<Option<BoundingBox>> {
+        self.clipped_element_bbox(el, &mut Vec::new())
+    }
+}
+
+impl TransformerContext {
+    /// Bounding box of `el`, intersected with that of any `clipPath` it refers to.
+    /// `clip_chain` holds the clip paths being followed, so a `clipPath` which
+    /// (directly or indirectly) clips itself is an error rather than endless recursion.
+    fn clipped_element_bbox(
+        &self,
+        el: &SvgElement,
+        clip_chain: &mut Vec<ElRef>,
+    ) -> Result<Option<BoundingBox>> {
         let target_el = el.get_target_element(self)?;
         let mut el_bbox = target_el.bbox()?;
 
@@ -214,11 +227,19 @@ impl ElementMap for TransformerContext {
             )))?;
             let clip_el = self
                 .get_element(&clip_id)
-                .ok_or(SvgdxError::ReferenceError(clip_id))?;
-            if let ("clipPath", Some(clip_bbox)) =
-                (clip_el.name.as_str(), self.get_element_bbox(clip_el)?)
-            {
-                el_bbox = bbox.intersect(&clip_bbox);
+                .ok_or_else(|| SvgdxError::ReferenceError(clip_id.clone()))?;
+            if clip_el.name == "clipPath" {
+                if clip_chain.contains(&clip_id) {
+                    return Err(SvgdxError::CircularRefError(format!(
+                        "clip-path {clip_id} refers to itself"
+                    )));
+                }
+                clip_chain.push(clip_id);
+                let clip_bbox = self.clipped_element_bbox(clip_el, clip_chain);
+                clip_chain.pop();
+                if let Some(clip_bbox) = clip_bbox? {
+                    el_bbox = bbox.intersect(&clip_bbox);
+                }
             }
         }
 
